@@ -63,6 +63,9 @@ def cases(draw):
             ops.append(["mv", tx, ty, draw(st.sampled_from([None, None, None] + ZS)), draw(st.sampled_from([0, 0, 1, 3]))])
         elif k == "z":
             ops.append(["mv", None, None, draw(st.sampled_from(ZS)), 0])
+            if draw(st.integers(0, 2)) == 0:
+                # a move that names one of X / Y only
+                ops.append(["mv1", draw(st.sampled_from(["x", "y"])), draw(st.integers(-10, 120)) * 0.5])
         elif k == "ret":
             ops.append(["ret"])
         else:
@@ -150,6 +153,13 @@ def render(case, variant):  # noqa: C901  pylint: disable=too-many-branches,too-
                 w += " E" + gen.fmt(e / u, nd)
             prog.append((idx, "G1" + w))
             x, y, z = nx, ny, nz
+        elif op[0] == "mv1":
+            if op[1] == "x":
+                prog.append((idx, "G1" + word("X", x + dx, op[2] + dx, shift[0])))
+                x = op[2]
+            else:
+                prog.append((idx, "G1" + word("Y", y + dy, op[2] + dy, shift[1])))
+                y = op[2]
         elif op[0] == "raster":
             for n in range(op[1]):
                 nx, ny = 70.0 + 0.25 * (n % 80), 70.0 + 0.25 * (n // 80)
